@@ -167,6 +167,29 @@ theorem option_step (E : Env) (o v : TokV) (rest : List TokV) (d : DRec) (k : OK
   · simp only [Bool.true_eq_false, if_false]
     cases ha : applyOpt E o.Token v.Value d <;> rfl
 
+/-- **every destination option sets exactly its documented field, in the documented unit, and nothing else** — the eighteen
+arms of the regenerated switch, read off the table that `readDestination_eq` ties to the code (`w` = the text of the value
+token, `n` / `b` = what `strconv.Atoi` / `ParseBool` make of it): flush and reconn in ms (converted after the loop),
+spoolsyncperiod in ms, spoolsleep and unspoolsleep in µs, sizes and counts as given -/
+theorem applyOpt_sets_its_field (E : Env) (d : DRec) (w : Bytes) (n : Int) (b : Bool)
+    (hA : E.strconv_Atoi (E.strings_TrimSpace w) = (n, none)) (hB : E.strconv_ParseBool w = (b, none)) :
+    applyOpt E Token.optPrefix w d = .ok { d with prefix_ := w } ∧ applyOpt E Token.optNotPrefix w d = .ok { d with notPrefix := w } ∧
+    applyOpt E Token.optSub w d = .ok { d with sub := w } ∧ applyOpt E Token.optNotSub w d = .ok { d with notSub := w } ∧
+    applyOpt E Token.optRegex w d = .ok { d with regex := w } ∧ applyOpt E Token.optNotRegex w d = .ok { d with notRegex := w } ∧
+    applyOpt E Token.optFlush w d = .ok { d with flush := n, err := none } ∧
+    applyOpt E Token.optReconn w d = .ok { d with reconn := n, err := none } ∧
+    applyOpt E Token.optPickle w d = .ok { d with pickle := b, err := none } ∧
+    applyOpt E Token.optSpool w d = .ok { d with spool := b, err := none } ∧
+    applyOpt E Token.optConnBufSize w d = .ok { d with connBufSize := n, err := none } ∧
+    applyOpt E Token.optIoBufSize w d = .ok { d with ioBufSize := n, err := none } ∧
+    applyOpt E Token.optSpoolBufSize w d = .ok { d with spoolBufSize := n, err := none } ∧
+    applyOpt E Token.optSpoolMaxBytesPerFile w d = .ok { d with spoolMaxBytesPerFile := n, err := none } ∧
+    applyOpt E Token.optSpoolSyncEvery w d = .ok { d with spoolSyncEvery := n, err := none } ∧
+    applyOpt E Token.optSpoolSyncPeriod w d = .ok { d with spoolSyncPeriod := n * 1000000, err := none } ∧
+    applyOpt E Token.optSpoolSleep w d = .ok { d with spoolSleep := n * 1000, err := none } ∧
+    applyOpt E Token.optUnspoolSleep w d = .ok { d with unspoolSleep := n * 1000, err := none } := by
+  simp [applyOpt, hA, hB, time_Millisecond, time_Microsecond]
+
 /-- a token that introduces no destination option is rejected, never skipped -/
 theorem unknown_option_rejected (E : Env) (o : TokV) (rest : List TokV) (d : DRec)
     (ho : optKind o.Token = none) (hne : ¬ (o.Token = Token.EOF ∨ o.Token = Token.sep)) :
